@@ -579,7 +579,8 @@ func TestClientCredentialsTokenCaching(t *testing.T) {
 
 	rapid.Check(t, func(t *rapid.T) {
 		ttl := genTTL(t, true)
-		off := rapid.SampledFrom([]string{"absent", "3", "4", "7", "14", "60", "3600"}).Draw(t, "expiresIn")
+		// (a lifetime of zero or less: the token endpoint handed out a token which is expired already)
+		off := rapid.SampledFrom([]string{"absent", "3", "4", "7", "14", "60", "3600", "0", "-3", "-30"}).Draw(t, "expiresIn")
 		conf, confSet := ttl.effective()
 		secs, has := offsetSeconds(off)
 
